@@ -551,6 +551,9 @@ def run(prog, rep, tier):
              'only (gather or scatter) within a function of charges.py')
     if check_perm_mixed_direction(prog, rep, ['tenpy/linalg/charges.py', 'tenpy/linalg/np_conserved.py']) < 4:
         raise AnalysisError('PERM-mixed-direction: permutation uses in charges.py not found')
+    from ..flow import check_reshape_order
+    rep.rule('RESHAPE-C-order', 'blocks are reshaped in C order only (the order of the pipe strides)')
+    check_reshape_order(prog, rep, ['tenpy/linalg/charges.py', 'tenpy/linalg/np_conserved.py'])
     return rep.finish(
         level='other',
         explanation='Fusion rule, direction algebra (all sign cases), q_map column roles (%d '
